@@ -503,6 +503,26 @@ func c29Native(v codec.Typed) ([]byte, error) {
 	return nativeBytes(v)
 }
 
+// c29NativeGuarded is c29Native for a generated (valid) value; a panic of the type's own
+// encoder is reported instead of killing the monitor (there is then nothing to compare with).
+func c29NativeGuarded(r *kit.Run, p *c29Proto, v codec.Typed, conc int) (native []byte, err error, ok bool) {
+	key := "C29/" + p.name + "/native-encoding-panics"
+	if conc > 0 {
+		key = "C29/concurrent/" + p.name + "/native-encoding-panics"
+	}
+	func() {
+		defer func() {
+			if x := recover(); x != nil {
+				js, _ := json.Marshal(v)
+				r.Violation(key, c29Case{ABI: p.abi, Type: p.name, Kind: p.kind, JSON: string(js), Conc: conc}, "the type's own encoding of the %s value %s panics: %v (dynamic.Marshal has nothing to agree with)", p.key(), js, x)
+			}
+		}()
+		native, err = c29Native(v)
+		ok = true
+	}()
+	return native, err, ok
+}
+
 // c29Warm pushes a zero value of p through the dynamic codec without judging it
 // (replays: re-create what the process had used before the witness).
 func c29Warm(r *kit.Run, p *c29Proto) {
@@ -623,6 +643,16 @@ func TestC29(t *testing.T) {
 	if rf := r.Replay(); rf != nil && len(rf.Witness) > 0 {
 		var c c29Case
 		if err := json.Unmarshal(rf.Witness, &c); err == nil && c.Type != "" {
+			if p := c29ByKey[c.ABI+"|"+c.Type+"|"+c.Kind]; c.Bytes == "" && p != nil {
+				// witness of a panicking native encoder: rebuild the value and encode it again
+				v := p.mk()
+				if err := json.Unmarshal([]byte(c.JSON), v); err == nil {
+					r.Eval()
+					c29NativeGuarded(r, p, v, 0)
+				}
+				r.Finish(0)
+				return
+			}
 			if c.Conc > 0 {
 				// an interleaving cannot be replayed step by step: re-run the concurrent part
 				c29Concurrent(r, c.Conc, r.N(1500, 20000))
@@ -684,7 +714,11 @@ func TestC29(t *testing.T) {
 		if tr, ok := v.(*actions.Transfer); ok && len(tr.Memo) > actions.MaxMemoSize {
 			tr.Memo = tr.Memo[:actions.MaxMemoSize]
 		}
-		native, err := c29Native(v)
+		native, err, nok := c29NativeGuarded(r, p, v, 0)
+		if !nok {
+			r.Eval()
+			continue
+		}
 		if err != nil {
 			r.Count("native_encoding_refused", 1) // e.g. string longer than the codec allows: no native encoding to compare with
 			continue
